@@ -781,6 +781,11 @@ class Interp:
                 if isinstance(a, bool) or (is_z3(a) and z3.is_bool(a)): return b_not(a)
                 raise Unsupported('bitwise Not on integer')
             if rv[1] == 'Neg': return -a
+            if rv[1] == 'PtrMetadata':
+                d_ = deref_all(a)                     # metadata of a slice reference = its length
+                if isinstance(d_, SeqM): return len(d_.items)
+                if isinstance(d_, Agg) and d_.ty == 'array': return len(d_.fields)
+                raise Unsupported('PtrMetadata of ' + type(d_).__name__)
             raise Unsupported('unop ' + rv[1])
         if k == 'cast':
             a = s.operand(ctx, frame, f, rv[2], ln); ck = rv[1]; ty = rv[3].strip()
